@@ -829,6 +829,30 @@ func (r *FnRun) evalCall(x SCall, env *specEnv) Val {
 			return Eq(App("dtype", SInt, iv.T), IntLit(int64(code)))
 		}
 		return Eq(App("dtype", SInt, r.argTerm(tv, env)), IntLit(int64(code)))
+	case "as":
+		// as(x, "*pkg.T"): the pointer an interface value holds, for use under a
+		// typeis(x, "*pkg.T") guard (meaningless otherwise): lets a clause speak
+		// about the fields of the object behind an interface-typed result
+		name := x.Args[1].(SStrL).Val
+		tv := r.evalSpec(x.Args[0], env)
+		iv, ok := tv.(IfaceVal)
+		if !ok {
+			return tv
+		}
+		if iv.Inner != nil {
+			return iv.Inner
+		}
+		if !strings.HasPrefix(name, "*") {
+			sfail("%s: as(x, T) needs a pointer type", env.what)
+		}
+		elem := r.e.lookupType(env.pkg, strings.TrimPrefix(name, "*"))
+		if elem == nil {
+			sfail("%s: as: unknown type %q", env.what, name)
+		}
+		code := r.e.typeCode(types.NewPointer(elem))
+		unbox := fmt.Sprintf("iunbox_%d", code)
+		r.declareFun(unbox, []Sort{SInt}, SInt)
+		return PtrVal{Kind: pkHeap, Ref: App(unbox, SInt, iv.T), Root: r.rootKey(elem), Elem: elem}
 	case "fresh":
 		t := r.argTerm(r.evalSpec(x.Args[0], env), env)
 		top := env.oldTop
